@@ -72,10 +72,22 @@ impl<K: View, V> HashMap<K, V> {
             r matches Some(v) ==> *v == old(self)@[k@] && final(self)@ == old(self)@.insert(k@, *final(v)),
             r is None ==> final(self)@ == old(self)@,
     { unimplemented!() }
-    /// `HashMap::insert`
+    /// `HashMap::insert`: "If the map did have this key present, the value is updated, and the old value is returned"
     #[verifier::external_body]
     pub fn insert(&mut self, k: K, v: V) -> (r: Option<V>)
         ensures final(self)@ == old(self)@.insert(k@, v),
+    { unimplemented!() }
+    /// `HashMap::contains_key`
+    #[verifier::external_body]
+    pub fn contains_key(&self, k: &K) -> (r: bool)
+        ensures r == self@.contains_key(k@),
+    { unimplemented!() }
+    /// `HashMap::remove`: "Removes a key from the map, returning the value at the key if the key was previously in the map"
+    #[verifier::external_body]
+    pub fn remove(&mut self, k: &K) -> (r: Option<V>)
+        ensures
+            final(self)@ == old(self)@.remove(k@),
+            r == (if old(self)@.contains_key(k@) { Some(old(self)@[k@]) } else { None }),
     { unimplemented!() }
 }
 
